@@ -264,9 +264,20 @@ func verifRunCase(c verifC01Case) (out verifC01Out) {
 		pre := gb.history() // what accept() is about to read (read-only)
 		var reqRuns, fbRuns, fbArgOK int64
 		pv := &verifPanic{n: i}
+		ctx := context.Background()
+		if ctxm == 2 {
+			ctx = cancelled
+		}
+		// ctxm 3: a context with a lifetime of its own - live when the call enters the breaker,
+		// cancelled by the request itself before it returns (the breaker looks at it at entry only)
+		cancelNow := func() {}
+		if ctxm == 3 {
+			ctx, cancelNow = context.WithCancel(context.Background())
+		}
 		req := func() error {
 			reqRuns++
 			timex.AdvanceFake(time.Duration(dur))
+			cancelNow()
 			return verifOutcome(outc, pv)
 		}
 		fb := func(err error) error {
@@ -275,10 +286,6 @@ func verifRunCase(c verifC01Case) (out verifC01Out) {
 				fbArgOK = 1
 			}
 			return verifErrFB
-		}
-		ctx := context.Background()
-		if ctxm == 2 {
-			ctx = cancelled
 		}
 		var res int64
 		func() {
@@ -295,6 +302,7 @@ func verifRunCase(c verifC01Case) (out verifC01Out) {
 				p, err = verifAllow(brk, ctxm, ctx)
 				if err == nil {
 					timex.AdvanceFake(time.Duration(dur))
+					cancelNow()
 					if entry == 4 {
 						p.Accept()
 					} else {
@@ -304,6 +312,7 @@ func verifRunCase(c verifC01Case) (out verifC01Out) {
 			}
 			res = verifClass(err)
 		}()
+		cancelNow()
 		s := verifRead(gb)
 		last := int64(gb.lastPass.Load())
 		if last != 0 {
